@@ -74,6 +74,25 @@ Proof.
     try (pose proof (N.div_le_mono x y 8 ltac:(discriminate) Hxy)); lia.
 Qed.
 
+(** create_entry_cost: linear up to 64, quadratic above, saturating at u64::MAX when
+    100 * len^2 overflows; monotone over all of N *)
+Lemma create_entry_cost_monotone : mono create_entry_cost.
+Proof.
+  unfold mono. intros x y Hxy. unfold create_entry_cost, copy_from_host_cost. cbv zeta.
+  destruct (N.leb_spec x 64) as [Hx|Hx]; destruct (N.leb_spec y 64) as [Hy|Hy]; try lia.
+  - (* x <= 64 < y *)
+    destruct (N.ltb_spec (100 * (y * y)) 18446744073709551616) as [E|E]; [|lia].
+    assert (100 * x <= 100 * (y * y) / 64); [|lia].
+    apply N.div_le_lower_bound; [discriminate|]. nia.
+  - destruct (N.ltb_spec (100 * (x * x)) 18446744073709551616) as [Ex|Ex];
+      destruct (N.ltb_spec (100 * (y * y)) 18446744073709551616) as [Ey|Ey].
+    + assert (100 * (x * x) / 64 <= 100 * (y * y) / 64) by (apply N.div_le_mono; [discriminate | nia]). lia.
+    + assert (100 * (x * x) / 64 <= 288230376151711744) by (apply N.div_le_upper_bound; [discriminate | lia]).
+      assert (x < 4294967296) by nia. lia.
+    + exfalso. nia.
+    + lia.
+Qed.
+
 (** *** positivity / base costs: every length-dependent charge is at least linear in the length *)
 Lemma costs_lower_bounds : forall x, x < W32c ->
   x <= copy_from_host_cost x /\ x <= copy_to_host_cost x /\ x <= copy_parameter_cost x /\ 1000 * x <= log_event_cost x
